@@ -729,3 +729,8 @@ PROPERTIES["C14"]["mirsym"].append(
       params={"quick": {"rounds": 2}, "thorough": {"rounds": 3}}, budget={"quick": 300, "thorough": 600},
       required_covers=["c14.dealer-wait.woken-without-progress", "c14.dealer-wait.completed-after-wait", "c14.dealer-wait.timed-out"]))
 PROPERTIES["C14"]["manifest"]["text"] += " DEALER: the two wait loops of the send path (behind another task's multi-frame send; for room in the pending queue) arm timers that expire SNDTIMEO after the call started, however often the waiter is woken without getting what it waits for."
+PROPERTIES["C14"]["mirsym"].append(
+    M("c14_req_send_wait_loop", "d_c14", "req_send_wait_loop",
+      "ReqSocket::send with no peer connected (coroutine MIR, real LoadBalancer::wait_for_connection), SNDTIMEO any positive value (symbolic), symbolic clock, recording timers; up to 2 peers that connect and are gone again before the sender runs, then a peer stays or the timer fires",
+      params={"quick": {"rounds": 2}, "thorough": {"rounds": 3}}, budget={"quick": 300, "thorough": 600},
+      required_covers=["c14.req-wait.woken-without-a-peer", "c14.req-wait.completed-after-wait", "c14.req-wait.timed-out"]))
